@@ -54,6 +54,9 @@ def gen_case(seed, i):
     if variant == "dev2" and fault is None:
         fault = None
     return {"i": i, "world": w.to_json(), "variant": variant, "tdir": tdir, "pre": pre, "fault": fault,
+            # the report was made in another working directory than the one `move` runs in (half of the cases):
+            # a relative DIR belongs to the `move` command line
+            "gcwd": rng.choice(["", "r"]),
             "fmt": rng.choice(["default", "json"]), "dargs": rng.choice([[], [], ["-n", "1"], ["--priority", "top"], ["--no-lock"]])}
 
 
@@ -119,7 +122,7 @@ def run_case(case):
         if case["variant"] == "dev2":
             env["FCLONES_VERIF_DEVICES"] += ";%s=ssd:simdisk2" % os.path.join(rd.world, "D2")
         g = ops.group(rd, [os.path.join(rd.world, "r")], ["--threads", "1"] + (["-f", "json"] if case["fmt"] == "json" else []),
-                      env=env, seed=3, cwd=rd.world)
+                      env=env, seed=3, cwd=os.path.join(rd.world, case.get("gcwd", "")))   # `group` may have run elsewhere
         if g.rc != 0:
             return {"violations": [], "nontrivial": False, "sig": None, "probes": {"group_failed": 1}, "invocations": 1, "info": {}}
         rep = report.parse_any(g.out)
